@@ -143,6 +143,8 @@ func (w *World) resolveType(env *CEnv, t *CType) types.Type {
 			base = types.Typ[types.String]
 		case "bool":
 			base = types.Typ[types.Bool]
+		case "byte":
+			base = types.Universe.Lookup("byte").Type()
 		case "error":
 			base = types.Universe.Lookup("error").Type()
 		case "any":
@@ -171,6 +173,9 @@ func (w *World) resolveType(env *CEnv, t *CType) types.Type {
 	}
 	if t.Slice {
 		base = types.NewSlice(base)
+	}
+	for i := 0; i < t.PtrOuter; i++ {
+		base = types.NewPointer(base)
 	}
 	return base
 }
